@@ -311,6 +311,28 @@ def main():
                 {'input': INPUT, 'spec': SPEC, 'what': 'strace'})
         elif v[0] != 'accept':
             raise common.MachineryError(f'TraceOutFile: {v}')
+    # ---- (a') the file is rewritten AT every acceptance ----------------------
+    # (an interrupt between an acceptance and its write would leave an older
+    # input in the file): hierarchical / hybrid runs with slow sibling checks,
+    # validated by TLC (TraceHier: no further result is consumed between an
+    # adoption and the write of the adopted input)
+    import stratcheck as S
+    wcfgs = []
+    for k in range(4 if a.tier == 'quick' else 24):
+        st = ('hierarchical', 'hybrid')[k % 2]
+        wcfgs.append((INPUT, dict(SPEC, delay_ms=30, delay_seed=k),
+                      ['--strategy', st, '-j', str((2, 3)[k % 2])],
+                      {'strategy': st, 'n': f'w{k}'}))
+    witems = S.validate(rep, S.execute(wcfgs, label='c06w'))
+    for it in witems:
+        rep.count()
+        if it.run.timed_out or it.run.status != 0:
+            continue
+        S.trace_violations(rep, it, {'adoption-not-written-to-file',
+                                     'write-without-adoption',
+                                     'write-without-accepted-candidate'},
+                           prefix='write-not-at-acceptance:')
+    S.cleanup(witems)
     rep.sample({'strace_events': [
         {k2: (v2 if k2 != 'data' else f'<{len(v2)} bytes>')
          for k2, v2 in e.items()} for e in recs[0]['events'][:6]]})
